@@ -65,7 +65,7 @@ def run(ck, tier):
     except Exception as e:
         ck.refuted("R-C01-units", "internal:%s" % type(e).__name__, "", "rule could not run: %s" % e)
     from ..prover import Budget
-    for sub in (_consumers, _lexer, _loops, _spans, _precond, _total, _twin_scans, _md_breaks, _matchlen, _div):
+    for sub in (_consumers, _lexer, _loops, _spans, _precond, _total, _twin_scans, _md_breaks, _matchlen, _div, _intparse):
         try:
             sub(ck, p)
         except Budget as e:
@@ -1150,3 +1150,41 @@ def _cmp_at_zero(f, pv, l, aliases):
         if is_alias(b) and const_int(a) is not None:
             return ops[x["rv"]["op"]](const_int(a), 0)
     return None
+
+
+# ---------------------------------------------------------------------------------------------------
+INT_TYS = {"u8", "u16", "u32", "u64", "u128", "usize", "i8", "i16", "i32", "i64", "i128", "isize"}
+
+
+def _intparse(ck, p):
+    """Parsing digits into a fixed-width integer fails on overflow however carefully the characters were
+    validated: the number of digits in a text is not bounded.  A front end that unwraps such a parse panics
+    on the keystroke that adds the digit too many."""
+    rule = "R-C01-intparse"
+    ck.rule(rule, "no front end unwraps the result of parsing text into a fixed-width integer (from_str_radix, str::parse::<int>): validation of the characters does not bound their number, and the parse fails with PosOverflow on a literal that is too long (a 0x-prefixed hash or address) - the error has to lead to `not this kind of token`, not to a panic")
+    n = 0
+    bad = []
+    for f in sorted((g for g in p.fns.values() if DIV_SCOPE.match(g.name)), key=lambda g: g.name):
+        pv = None
+        for bi, t in f.calls():
+            if method(t) not in ("from_str_radix", "parse", "from_str"):
+                continue
+            inst = norm(inst_of(t) or def_of(t) or "")
+            if method(t) == "parse" and "core::str" not in inst:
+                continue
+            if method(t) in ("from_str_radix",) or True:
+                dty = f.local_tystr(t["dest"][0]) if t.get("dest") else ""
+                m = re.search(r"Result<(\w+),", dty or "")
+                if not m or m.group(1) not in INT_TYS:
+                    continue
+            n += 1
+            pv = pv or Prov(f)
+            for b2, t2 in f.calls():
+                if method(t2) in ("unwrap", "expect", "unwrap_unchecked") and t2["args"] and any(o[0] == "call" and o[1] == bi for o in arg_roots(f, pv, t2["args"][0])):
+                    bad.append((f, t2, t, m.group(1)))
+    ck.floor(rule, "integer parses of text in the front ends", n, 1)
+    for f, t2, t, ty in bad:
+        ck.saw(f)
+        ck.refuted(rule, "%s:%s" % (keyname(p, f), method(t)), f.loc(t2["ln"]), "%s of the result of %s into %s: for a run of valid digits that does not fit the type the parse returns Err(PosOverflow) and this panics - e.g. a 0x-prefixed literal with more than 16 hex digits (an address, a digest); the text is typed digit by digit, so the panic arrives with one keystroke" % (method(t2), method(t), ty))
+    if not bad:
+        ck.proved(rule, "integer-parses", "", "%d integer parse(s) of text in the front ends; none is unwrapped" % n)
